@@ -46,7 +46,8 @@ LEVEL_TEXT = ('Every node of all 92 scattering-factor tables, segment midpoints,
               'compared with the documented equations; every way of handing a compound and its density to the calculators '
               '(string, dict, atom, Formula with and without its own density x density= / natural_density= / none) is '
               'compared with the density the documented rules select.  Nodes and f0 entries are swept completely; energies between '
-              'nodes, compounds and grids are finite samples.')
+              'nodes, compounds and grids are finite samples.'
+              " Added in rounds 4-7: package-level alias under every density route, f1 at table nodes bordering rows without f1 and NaN between them, refraction / reflectivity at the end node of a table, scalar f0 over the whole Q grid, zero-count atoms, refused calls on the caller's Formula, in-place edits of returned arrays, clones of ions' x-ray records.")
 LEVEL_NOTE = ('Trusted: pvmon/ref/xray.py and pvmon/ref/masses.py (readers, bisect interpolation, sums), the embedded '
               'data files as specification, periodictable.constants cross-pinned to CODATA at 1e-6.')
 SHARDS = {'quick': 8, 'thorough': 16}
